@@ -137,6 +137,7 @@ void h_query(void) {
     }
     V_ASSERT(g_live_blocks == live0 - (long)exp, "C19: QueryResp buffer released, reported observations freed");
     V_ASSERT(ST->mapper_known == 1 && mac6_eq(ST->mapper_real.a, in.frame + F_RSRC), "C05: a Query names its sender as mapper");
+    if (!in.st.known) V_ASSERT(mac6_eq(ST->mapper_apparent.a, in.frame + F_ESRC), "C05: a Query that opens the session records its Ethernet source as apparent mapper");
     V_ASSERT(ST->mapper_seq == be16(in.frame + F_SEQ), "C07: sequence number of the Query remembered");
     V_WITNESS("h_query end");
 }
